@@ -159,8 +159,8 @@ func (ro *Roles) dequeueLoop(r *Report, which map[string]bool) {
 					args := splitArgs(strings.TrimSuffix(strings.TrimPrefix(admitLit.Atom.L, dp.admitP), ")"))
 					// (runner, pipeline of the job | list key, [current definition of that pipeline,] ignore)
 					okSame := len(args) >= 3 && args[0] == "recv" && (args[1] == job+".Pipeline" || listKey != "" && args[1] == listKey)
-					for _, a := range args[2 : len(args)-1] {
-						if a != "recv.defs.Pipelines["+args[1]+"]" {
+					for i := 2; i < len(args)-1; i++ {
+						if args[i] != "recv.defs.Pipelines["+args[1]+"]" {
 							okSame = false
 						}
 					}
